@@ -143,6 +143,10 @@ def make_context(sc, rep='f64', condition='clean', masked_array_mask=False,
         else:
             ev[int(stars[0][1]) + 2, int(stars[0][0]) - 2] = np.nan
             X.e = np.ma.MaskedArray(ev)
+    # size arguments given as arrays (larger than the image on one axis)
+    X.box_arr = np.array([13, 500])
+    X.fit_box_arr = np.array([5, 99])
+    X.border_arr = np.array([2, 1])
     X.cov = None
     if coverage_mask:
         X.cov = np.zeros((ny, nx), bool)
@@ -259,6 +263,9 @@ def _entries():
         X.d, (8, X.shape[1]), mask=X.m, filter_size=1, exclude_percentile=60.0)
     E['Background2D_thin_boxes'] = lambda X: Background2D(
         X.d, (1, 9), mask=X.m, filter_size=1, exclude_percentile=60.0)
+    E['Background2D_array_box'] = lambda X: Background2D(
+        X.d, X.box_arr, mask=X.m, filter_size=np.array([1, 3]),
+        exclude_percentile=60.0)
     E['LocalBackground'] = lambda X: LocalBackground(5, 9)(
         np.asarray(getattr(X.d, 'value', X.d)), X.xy[0], X.xy[1], mask=X.m)
     E['background_estimators'] = lambda X: (
@@ -304,6 +311,11 @@ def _entries():
     E['centroid_com'] = lambda X: centroid_com(cut(X, X.d), mask=cut(X, X.m))
     E['centroid_quadratic'] = lambda X: centroid_quadratic(
         cut(X, X.d), mask=cut(X, X.m))
+    E['centroid_quadratic_array_box'] = lambda X: centroid_quadratic(
+        cut(X, X.d), mask=cut(X, X.m), fit_boxsize=X.fit_box_arr)
+    E['find_peaks_array_border'] = lambda X: find_peaks(
+        X.d, X.thr_q, box_size=np.array([5, 7]), border_width=X.border_arr,
+        mask=X.m)
     E['centroid_1dg'] = lambda X: centroid_1dg(
         cut(X, X.d), error=cut(X, X.e), mask=cut(X, X.m))
     E['centroid_2dg'] = lambda X: centroid_2dg(
